@@ -192,6 +192,12 @@ theorem C17_complete_needs_determinism : ¬ C17_complete_any_factory := by
   refine ⟨[⟨1, 0, 1, 0⟩], (), ⟨by simp, ?_, by simp [OfferSimple], by decide⟩, ⟨(), by decide, rfl⟩⟩
   exact ⟨⟨_, List.mem_cons_self, by simp⟩, by decide, trivial⟩
 
+-- The configuration is an argument of every call: the theorems speak about the subclass relation
+-- current at that call.  Before `Printable.register(Legacy)` no chain exists for LegacyChild and
+-- `_adapt` finds none; after it, with the same offers, the chain exists and is found.
+example : (adaptInner (lateCfg false) okFactory 2 () 3).1 = .notFound ∧
+    adaptInner (lateCfg true) okFactory 2 () 3 = (.found [⟨0, 0, 3, 0⟩] (), [⟨0, .ok⟩]) := by decide
+
 example : (adaptInner chainCfg (refusing [0, 2]) 3 () 2).1 = .notFound := by decide
 example : (adaptInner chainCfg (refusing [0]) 3 () 2).1 ≠ .notFound := by decide
 
